@@ -180,6 +180,9 @@ func translate(P *Program, fn *ssa.Function, ct *Contract, disabled map[string]b
 			if len(eqs) == 0 {
 				continue
 			}
+			if sp.Else {
+				eqs = append(eqs, f.Not(f.Or(eqs...)))
+			}
 			cover = append(cover, f.Or(eqs...))
 			var next [][]*Term
 			for _, c := range cases {
